@@ -86,6 +86,29 @@ def _const_str(model, e, env, depth=6):
     return None
 
 
+def _only_escaped_appends(f, name):
+    """the local list `name` starts empty (or as a comprehension of re.escape) and grows only by
+    append(re.escape(..))"""
+    ok = False
+    for n in iter_scope(f.node):
+        if isinstance(n, ast.Assign) and any(isinstance(t, ast.Name) and t.id == name for t in n.targets):
+            v = n.value
+            if isinstance(v, ast.List) and not v.elts:
+                ok = True
+            elif isinstance(v, (ast.ListComp, ast.GeneratorExp)) and isinstance(v.elt, ast.Call) and unparse(v.elt.func) == 're.escape':
+                ok = True
+            else:
+                return False
+        if isinstance(n, ast.Call) and isinstance(n.func, ast.Attribute) and isinstance(n.func.value, ast.Name) \
+                and n.func.value.id == name and n.func.attr in ('append', 'extend', 'insert'):
+            a = n.args[-1] if n.args else None
+            if not (n.func.attr == 'append' and isinstance(a, ast.Call) and unparse(a.func) == 're.escape'):
+                return False
+        if isinstance(n, ast.AugAssign) and isinstance(n.target, ast.Name) and n.target.id == name:
+            return False
+    return ok
+
+
 def rp1(model):
     r = RuleResult('RP1', 'replace_phrases: every user word enters the pattern through re.escape; '
                    'the word separator matches at least one blank and at most one line break; \\b '
@@ -137,6 +160,9 @@ def rp1(model):
                     and isinstance(p.args[0], (ast.GeneratorExp, ast.ListComp)) \
                     and isinstance(p.args[0].elt, ast.Call) and unparse(p.args[0].elt.func) == 're.escape':
                 r.ok(p, 'user words enter through re.escape, joined by the separator', nontrivial=True)
+            elif isinstance(p, ast.Call) and T.call_name(p) == 'join' and p.args and isinstance(p.args[0], ast.Name) \
+                    and _only_escaped_appends(f, p.args[0].id):
+                r.ok(p, 'user words are collected through re.escape and joined by the separator', nontrivial=True)
             elif isinstance(p, ast.Name):
                 s = _sep_literal(model, f, p.id)
                 if s is None:
@@ -148,6 +174,10 @@ def rp1(model):
     seps = [n.value for n in iter_scope(f.node) if isinstance(n, ast.Assign)
             and isinstance(n.value, ast.Constant) and isinstance(n.value.value, str)
             and '\\n' in n.value.value]
+    # the separator may also be the literal that joins the escaped words
+    seps += [n.func.value for n in iter_scope(f.node) if isinstance(n, ast.Call) and T.call_name(n) == 'join'
+             and isinstance(n.func, ast.Attribute) and isinstance(n.func.value, ast.Constant)
+             and isinstance(n.func.value.value, str) and '\\n' in n.func.value.value]
     if not seps:
         r.fail(f.node, 'no word separator pattern with a line break', stmt='separator')
     for c in seps:
